@@ -25,6 +25,10 @@ EPOCH = 1_700_000_000.0
 FAULT, SETTLE, DONE = "fault", "settle", "done"
 
 
+class AppHookError(Exception):
+    """Injected failure of an application hook (a fault of the application, not of the library)."""
+
+
 class HarnessError(Exception):
     """The simulator itself is at fault (never a VIOLATION, never exit 0)."""
 
@@ -283,9 +287,17 @@ class Sim:
                 await fut
             finally:
                 self.pending_hooks.pop(hid, None)
+        if self.decide(f"hookraise:{label}:{hname}:{n}", self.hook_raise_p(label, hname)):
+            # fault injection: the application's own handler fails (the library logs it and carries on)
+            self.rec("hook_raise", label, hname)
+            self.fault("application_hook_raised")
+            raise AppHookError(f"injected failure in the application's {hname}()")
 
     def hook_p(self, label, hname):
         return self.cfg["p_hook"]
+
+    def hook_raise_p(self, label, hname):
+        return self.cfg.get("p_hook_raise", 0.0) if hname == "on_message" else 0.0
 
     def _record(self, action):
         self.out_actions.append(list(action))
